@@ -1,7 +1,7 @@
 import Dcg.Driver.Proto
 import Dcg.Model.Version
 namespace Dcg.Driver.Version
-open Dcg.Driver Dcg.Model.Version Dcg.Gen.Versions
+open Dcg.Driver Dcg.Model.Version Dcg.Gen.Versions Dcg.Model.KwFlow Dcg.Gen.KwSites
 
 def showAvail : Avail → String
   | .thirdParty => "thirdparty"
@@ -45,6 +45,24 @@ def handlers : List (String × Handler) := [
       match hits.head? with
       | some (p, v) => s!"ok {p} {v}"
       | none => "none"
+    | _ => "err args"),
+  /- version.refutekw → none | ok <file key> <function key> <line> <text|value> :
+     first site of the keyword-only flag that may be true with the flag false and a target below the bound -/
+  ("version.refutekw", fun
+    | [] => match sites.find? (fun s => !siteOk s) with
+      | some s => s!"ok {s.file} {s.func} {s.line} {if isText s then "text" else "value"}"
+      | none => "none"
+    | _ => "err args"),
+  /- version.kwpredict <model type key> <flag 0|1> <target minor> → <class-level 0|1> <field-level possible 0|1> -/
+  ("version.kwpredict", fun
+    | [kd, f, t] => match kd.nat?, f.nat?, t.nat? with
+      | some kd, some f, some t =>
+        s!"{if writesClassLevel kd (f != 0) t then 1 else 0} {if fieldLevelPossible kd then 1 else 0}"
+      | _, _, _ => "err args"
+    | _ => "err args"),
+  /- version.kwsites → <number of sites> <number of text sites> <number of field-key sites> -/
+  ("version.kwsites", fun
+    | [] => s!"{sites.length} {(sites.filter isText).length} {(sites.filter (fun s => s.kind == .fieldKey)).length}"
     | _ => "err args")
 ]
 end Dcg.Driver.Version
